@@ -27,7 +27,8 @@ RULE = ("Each run draws a nested structure (lists, dicts, attribute-bearing obje
         "zero-tensor structure), an aliasing pattern of its slots over a pool of distinct tensors, and a "
         "history of <=10 (quick) operations on one Packer: list/flat getters, list/flat constructors with "
         "valid and invalid arguments, caller mutation of a returned structure, of the list a getter returned, of the "
-        "original. Oracle = reference model (slots in traversal order, unique = first occurrence by identity). "
+        "original. Oracle = reference model (slots in traversal order, unique = first occurrence by identity); a constructor "
+        "must succeed once EITHER getter of the same unique mode has been called. "
         "A case is non-trivial iff the structure has >=1 container and the history contains >=1 constructor "
         "call that the model says must succeed; distinct = distinct (structure shape signature, alias "
         "partition, op-kind sequence) triples.")
